@@ -200,9 +200,15 @@ def get_mapped_gp_evaluator_additive(
             diff = (D[:, i : i + 1] - grid[i][np.newaxis, :]) / length_scale[i]
             k0s.append(np.exp(-0.5 * diff**2))
     elif isinstance(arbf, DiffAdditiveMixin):
-        assert srbf is None
         for i in range(D.shape[1]):
-            k0s.append(arbf.get_k0_for_mapping(D[:, i], grid[i], length_scale[i]))
+            if i < len(sinds):
+                # dimensions of the SubsetRBF prefactor
+                diff = (D[:, i : i + 1] - grid[i][np.newaxis, :]) / length_scale[i]
+                k0s.append(np.exp(-0.5 * diff**2))
+            else:
+                k0s.append(
+                    arbf.get_k0_for_mapping(D[:, i], grid[i], length_scale[i])
+                )
     else:
         raise ValueError
 
